@@ -268,6 +268,7 @@ static cfg_opt_t *cfg_getopt_secidx(cfg_t *cfg, const char *name,
 {
 	cfg_opt_t *opt = NULL;
 	cfg_t *sec = cfg;
+	const char *path = name;
 
 	if (!cfg || !cfg->name || !name || !*name) {
 		errno = EINVAL;
@@ -351,8 +352,11 @@ static cfg_opt_t *cfg_getopt_secidx(cfg_t *cfg, const char *name,
 		if (*name == '|') {
 			name += strspn(name, "|");
 			/* A path cannot end in a separator */
-			if (!*name)
+			if (!*name) {
+				if (!is_set(CFGF_IGNORE_UNKNOWN, cfg->flags))
+					cfg_error(cfg, _("no option name after '%s'"), path);
 				return NULL;
+			}
 		}
 	}
 
